@@ -291,7 +291,11 @@ class BaseProject(object, metaclass=ABCMeta):
 
         # keep a copy: the argument (in particular the shared default list) must not be modified
         # by later edits of self.absence_time_list
-        self.absence_time_list = list(absence_time_list)
+        # duplication check (remove_absence_time_list deletes one log entry per listed step)
+        self.absence_time_list = []
+        for step_time in absence_time_list:
+            if step_time not in self.absence_time_list:
+                self.absence_time_list.append(step_time)
 
         self.perform_auto_task_while_absence_time = perform_auto_task_while_absence_time
 
